@@ -170,4 +170,128 @@ func node.contains
   property C01
   requires n != nil && bst(view(n)) && iscmp(compare)
   ensures[def] result == (cnt(view(n), value) > 0)
+
+// the three traversal orders of one and the same tree: the i-th value of each listing
+spec nthpre(t Tree, i int) T
+axiom nthpre_node(l Tree, v T, h int, r Tree, i int) auto: {nthpre(Node(l, v, h, r), i)} nthpre(Node(l, v, h, r), i) == ite(i == 0, v, ite(i <= size(l), nthpre(l, i - 1), nthpre(r, i - 1 - size(l))))
+spec nthin(t Tree, i int) T
+axiom nthin_node(l Tree, v T, h int, r Tree, i int) auto: {nthin(Node(l, v, h, r), i)} nthin(Node(l, v, h, r), i) == ite(i < size(l), nthin(l, i), ite(i == size(l), v, nthin(r, i - size(l) - 1)))
+spec nthpost(t Tree, i int) T
+axiom nthpost_node(l Tree, v T, h int, r Tree, i int) auto: {nthpost(Node(l, v, h, r), i)} nthpost(Node(l, v, h, r), i) == ite(i < size(l), nthpost(l, i), ite(i < size(l) + size(r), nthpost(r, i - size(l)), v))
+
+func node.walkPreOrder
+  property C01
+  requires n != nil
+  ensures[len]   loglen(f) == old(loglen(f)) + size(view(n))
+  ensures[old]   forall i :: 0 <= i && i < old(loglen(f)) ==> logarg(f, 0, i) == old(logarg(f, 0, i))
+  ensures[order] forall i :: {nthpre(view(n), i)} 0 <= i && i < size(view(n)) ==> logarg(f, 0, old(loglen(f)) + i) == nthpre(view(n), i)
+  assigns log(f)
+
+func node.walkInOrder
+  property C01
+  requires n != nil
+  ensures[len]   loglen(f) == old(loglen(f)) + size(view(n))
+  ensures[old]   forall i :: 0 <= i && i < old(loglen(f)) ==> logarg(f, 0, i) == old(logarg(f, 0, i))
+  ensures[order] forall i :: {nthin(view(n), i)} 0 <= i && i < size(view(n)) ==> logarg(f, 0, old(loglen(f)) + i) == nthin(view(n), i)
+  assigns log(f)
+
+func node.walkPostOrder
+  property C01
+  requires n != nil
+  ensures[len]   loglen(f) == old(loglen(f)) + size(view(n))
+  ensures[old]   forall i :: 0 <= i && i < old(loglen(f)) ==> logarg(f, 0, i) == old(logarg(f, 0, i))
+  ensures[order] forall i :: {nthpost(view(n), i)} 0 <= i && i < size(view(n)) ==> logarg(f, 0, old(loglen(f)) + i) == nthpost(view(n), i)
+  assigns log(f)
+
+// ---- the exported type: invariant of every Tree reachable through the API
+type Tree(n) invariant n.compare != nil && iscmp(n.compare) && good(view(n.root)) && n.count == size(view(n.root))
+
+func Tree.Len
+  property C01
+  owns n.root
+  requires n != nil && inv(n)
+  ensures result == size(view(n.root))
+
+func Tree.Contains
+  property C01
+  owns n.root
+  requires n != nil && inv(n)
+  ensures result == (cnt(view(n.root), value) > 0)
+
+func Tree.Add
+  property C01, C02
+  owns n.root
+  gives n.root
+  requires n != nil && inv(n)
+  ensures[inv]  inv(n) && n.compare == old(n.compare)
+  ensures[cnt]  forall x T :: {cnt(view(n.root), x)} cnt(view(n.root), x) == cnt(old(view(n.root)), x) + b2i(x == value)
+  assigns fields(n)
+
+func Tree.Remove
+  property C01, C02
+  owns n.root
+  gives n.root
+  requires n != nil && inv(n)
+  ensures[ok]     result == (cnt(old(view(n.root)), value) > 0)
+  ensures[inv]    inv(n) && n.compare == old(n.compare)
+  ensures[absent] !result ==> view(n.root) == old(view(n.root)) && n.count == old(n.count)
+  ensures[cnt]    result ==> (forall x T :: {cnt(view(n.root), x)} cnt(view(n.root), x) == cnt(old(view(n.root)), x) - b2i(x == value))
+  assigns fields(n)
+
+func Tree.Clear
+  property C01
+  requires n != nil && n.compare != nil && iscmp(n.compare)
+  ensures inv(n) && n.count == 0 && n.root == nil
+  assigns fields(n)
+
+func Tree.WalkPreOrder
+  property C01
+  owns n.root
+  requires n != nil
+  ensures[len]   loglen(walker) == old(loglen(walker)) + size(view(n.root))
+  ensures[old]   forall i :: 0 <= i && i < old(loglen(walker)) ==> logarg(walker, 0, i) == old(logarg(walker, 0, i))
+  ensures[order] forall i :: {nthpre(view(n.root), i)} 0 <= i && i < size(view(n.root)) ==> logarg(walker, 0, old(loglen(walker)) + i) == nthpre(view(n.root), i)
+  assigns log(walker)
+
+func Tree.WalkInOrder
+  property C01
+  owns n.root
+  requires n != nil
+  ensures[len]   loglen(walker) == old(loglen(walker)) + size(view(n.root))
+  ensures[old]   forall i :: 0 <= i && i < old(loglen(walker)) ==> logarg(walker, 0, i) == old(logarg(walker, 0, i))
+  ensures[order] forall i :: {nthin(view(n.root), i)} 0 <= i && i < size(view(n.root)) ==> logarg(walker, 0, old(loglen(walker)) + i) == nthin(view(n.root), i)
+  assigns log(walker)
+
+func Tree.WalkPostOrder
+  property C01
+  owns n.root
+  requires n != nil
+  ensures[len]   loglen(walker) == old(loglen(walker)) + size(view(n.root))
+  ensures[old]   forall i :: 0 <= i && i < old(loglen(walker)) ==> logarg(walker, 0, i) == old(logarg(walker, 0, i))
+  ensures[order] forall i :: {nthpost(view(n.root), i)} 0 <= i && i < size(view(n.root)) ==> logarg(walker, 0, old(loglen(walker)) + i) == nthpost(view(n.root), i)
+  assigns log(walker)
+
+// ---- consequences of the invariants that are mathematics about Tree values, proved by structural induction:
+// each lemma below is the induction step (the Leaf case is immediate from size(Leaf) == 0).
+spec listed(t Tree) bool = forall i :: {nthin(t, i)} 0 <= i && i < size(t) ==> cnt(t, nthin(t, i)) > 0
+spec sortedin(t Tree) bool = forall i, j :: {nthin(t, i), nthin(t, j)} 0 <= i && i < j && j < size(t) ==> cmp(nthin(t, i), nthin(t, j)) <= 0
+// every position of the in-order listing holds a member of the multiset
+lemma C01 inorder_members_step(l Tree, v T, h int, r Tree): listed(l) && listed(r) ==> listed(Node(l, v, h, r))
+// the in-order listing of a search tree is non-decreasing
+lemma C01 inorder_sorted_step(l Tree, v T, h int, r Tree): sortedin(l) && sortedin(r) && listed(l) && listed(r) && bst(Node(l, v, h, r)) ==> sortedin(Node(l, v, h, r))
+// the pre- and post-order listings list members of the same multiset (all three have length size(t))
+spec listedpre(t Tree) bool = forall i :: {nthpre(t, i)} 0 <= i && i < size(t) ==> cnt(t, nthpre(t, i)) > 0
+lemma C01 preorder_members_step(l Tree, v T, h int, r Tree): listedpre(l) && listedpre(r) ==> listedpre(Node(l, v, h, r))
+spec listedpost(t Tree) bool = forall i :: {nthpost(t, i)} 0 <= i && i < size(t) ==> cnt(t, nthpost(t, i)) > 0
+lemma C01 postorder_members_step(l Tree, v T, h int, r Tree): listedpost(l) && listedpost(r) ==> listedpost(Node(l, v, h, r))
+
+// C02: an AVL tree of height h has at least minsize(h) nodes, where minsize(-1) = 0, minsize(0) = 1,
+// minsize(k) = minsize(k-1) + minsize(k-2) + 1 (= fib(k+3) - 1) and minsize is monotone; hence no element lies
+// deeper than 1.4405 log2(n+2) levels (that last step, from the Fibonacci recurrence to the logarithm, is standard
+// mathematics and is NOT checked here). The lemma is the induction step; the facts about minsize it uses are its
+// defining recurrence and monotonicity instantiated at the height of the node.
+spec minsize(k int) int
+spec msok(t Tree) bool = size(t) >= minsize(hgt(t))
+spec hh(l Tree, v T, h int, r Tree) int = hgt(Node(l, v, h, r))
+lemma C02 minsize_step(l Tree, v T, h int, r Tree): (minsize(-1) == 0 && minsize(0) == 1 && (hh(l, v, h, r) >= 1 ==> minsize(hh(l, v, h, r)) == minsize(hh(l, v, h, r) - 1) + minsize(hh(l, v, h, r) - 2) + 1 && minsize(hh(l, v, h, r) - 1) >= minsize(hh(l, v, h, r) - 2)) && avl(Node(l, v, h, r)) && msok(l) && msok(r)) ==> msok(Node(l, v, h, r))
 @*/
